@@ -52,7 +52,10 @@ fn payload_fd(p: u64) -> i32 {
 }
 
 pub fn one_case(r: &mut Rng, silent: &Arc<Mutex<Option<String>>>) -> Case {
-    let len: u32 = *r.pick(&[1, 2, 2, 4]);
+    // What the caller asks for and what the kernel grants (the next power of two): the queue works
+    // with the granted size, whatever was asked for.
+    let asked: u32 = *r.pick(&[1, 2, 2, 4, 3, 3]);
+    let len: u32 = asked.next_power_of_two();
     let start = if r.chance(3, 4) { *r.pick(&START_POOL) } else { r.next() as u32 };
     let n_threads = r.range(2, 3) as usize;
     let mut progs: Vec<Vec<u64>> = Vec::new();
@@ -73,7 +76,7 @@ pub fn one_case(r: &mut Rng, silent: &Arc<Mutex<Option<String>>>) -> Case {
     // A kernel-thread (SQPOLL) ring passes to_submit = 0 to enter and entering consumes nothing:
     // the kernel thread is this driver's own kernel steps.
     let mode = r.below(4);
-    let cfg = a10::Ring::config().with_submission_queue_size(len);
+    let cfg = a10::Ring::config().with_submission_queue_size(asked);
     let cfg = match mode {
         1 => cfg.single_issuer(),
         2 => cfg.with_kernel_thread(),
@@ -362,12 +365,13 @@ pub fn one_case(r: &mut Rng, silent: &Arc<Mutex<Option<String>>>) -> Case {
         events
     );
     let json = format!(
-        "{{\"sq_entries\":{len},\"ring_mode\":{mode},\"start\":{start},\"programs\":{progs_json},\"prefilled\":{prefill},\"kernel_steps\":{ksteps},\"schedule\":[{jevents}]}}"
+        "{{\"sq_entries\":{len},\"sq_entries_asked\":{asked},\"ring_mode\":{mode},\"start\":{start},\"programs\":{progs_json},\"prefilled\":{prefill},\"kernel_steps\":{ksteps},\"schedule\":[{jevents}]}}"
     );
     let wraps = (start as u64 + (prefill + consumed.len() + pending.len()) as u64) > u32::MAX as u64;
     let preemptions = out.trace.iter().filter(|t| t.2).count();
     let tags = vec![
         format!("sq_len:{len}"),
+        format!("sq_asked:{asked}"),
         format!("ring_mode:{}", ["default", "single_issuer", "kernel_thread", "default"][mode as usize]),
         format!("threads:{n_threads}"),
         format!("preemptions:{}", preemptions.min(6)),
